@@ -214,6 +214,7 @@ static void run() {
     else if (c == "depths") { ContentPtr a = pop(); std::pair<int64_t, int64_t> mm = a.get()->minmax_depth(); std::pair<bool, int64_t> bd = a.get()->branch_depth();
       printf("OK [%lld, %lld, %lld, %d, %lld, %lld]\n", (long long)a.get()->purelist_depth(), (long long)mm.first, (long long)mm.second, (int)bd.first, (long long)bd.second, (long long)a.get()->numfields());
       fflush(stdout); _Exit(0); }
+    else if (c == "astype") { std::string nm = next(); ContentPtr a = pop(); stack.push_back(a.get()->numbers_to_type(nm)); }
     else if (c == "numkeys") { ContentPtr a = pop(); printf("OK %lld\n", (long long)a.get()->keys().size()); fflush(stdout); _Exit(0); }
     else if (c == "drop") { pop(); }
     else if (c == "setfield") { std::string k = next(); ContentPtr what = pop(); ContentPtr a = pop();
